@@ -35,9 +35,9 @@ ann('scope_dispose', [
     ('.plainRead "s.closeErr"', 'cWait: read after the receive'),
     ('.deferChanClose', 'cSig (deferred first, runs last)'),
     ('.plainWrite "s.closeErr"', 'cErr (deferred second, runs before cSig)'),
-    ('.call "s.cancel"', 'cCancel'),
-    ('.lock "s.childrenMu"', 'cTake ['),
+    ('.lock "s.childrenMu"', 'cTake [ (before the cancel: 0c7a2e0)'),
     ('.unlock "s.childrenMu"', 'cTake ]'),
+    ('.call "s.cancel"', 'cCancel'),
     ('.call "child.dispose"', 'cKids -> kCas ... (nested dispose of each child)'),
     ('.lock "s.disposablesMu"', 'cTakeD ['),
     ('.unlock "s.disposablesMu"', 'cTakeD ]'),
@@ -63,6 +63,11 @@ ann('scope_CreateScope', [
     ('.unlock "s.rootProvider.scopesMu"', 'sReg ] (rejected)'),
     ('.call "child.Close"', 'kCas c (ret provDisposed): after the unlock'),
     ('.write "s.rootProvider.scopes"', 'sReg: the write'),
+    ('.unlock "s.rootProvider.scopesMu"', 'sReg ]'),
+    ('.atomic "LoadInt32" "child.disposed"', 'sRe (64d7b34): was the child closed between the two registrations?'),
+    ('.lock "s.rootProvider.scopesMu"', 'sUndo ['),
+    ('.delete "s.rootProvider.scopes"', 'sUndo: take the closed child out again'),
+    ('.unlock "s.rootProvider.scopesMu"', 'sUndo ]'),
     ('.spawnBegin', 'sSpawn'),
     ('.chanRecv "ctx.Done()"', 'wKid'),
     ('.call "child.Close"', 'wKid -> kCas c (ret okUnit)'),
@@ -91,6 +96,8 @@ ann('scope_lockCreation', [
 ann('scope_getInstance', [('.rlock', 'rRead / rRe ['), ('.runlock', 'rRead / rRe ]')])
 ann('scope_resolve', [
     ('.call "s.rootProvider.getSingleton"', 'gLoad'),
+    ('.atomic "LoadInt32" "s.disposed"', 'gMiss1 (0cb30f3)'),
+    ('.atomic "LoadInt32" "s.rootProvider.disposed"', 'gMiss2'),
     ('.call "s.getInstance"', 'rRead'),
     ('.call "s.lockCreation"', 'rMu, rLock'),
     ('.deferCall "unlock"', 'rUnl'),
